@@ -8,12 +8,14 @@ package upstream
 import (
 	"context"
 	"crypto/tls"
+	"crypto/x509"
 	"fmt"
 	"io"
 	"log"
 	"net"
 	"net/http"
 	"os"
+	"runtime/debug"
 	"sort"
 	"strings"
 	"testing"
@@ -64,8 +66,8 @@ func TestVerifC18Sockets(t *testing.T) {
 	rep := report.New("C18 sockets after Close")
 	defer rep.Write()
 	kinds := []string{"udp", "udp-truncated(tcp fallback)", "tcp", "tcp+pipeline", "tls", "tls+pipeline", "https", "h3", "quic"}
-	rep.Rule = fmt.Sprintf("real NewUpstream for every kind %v against local servers on loopback: baseline socket set, one successful exchange (so that connections exist and idle in the pool), Close (twice), then up to 8 s of settling; "+
-		"oracle: the process's socket inode set equals the baseline (no upstream socket, pooled keep-alive connection or quic UDP socket survives Close); Close returns and is idempotent; distinct = distinct upstream kinds", kinds)
+	rep.Rule = fmt.Sprintf("real NewUpstream for every kind %v against local servers on loopback: baseline socket set, one exchange - successful against a healthy server (so that connections exist and idle in the pool), failing during the TLS handshake against a server whose certificate is not trusted or that does not speak TLS - then Close (twice), then up to 8 s of settling; "+
+		"oracle: the process's socket inode set equals the baseline (no upstream socket, pooled keep-alive connection, half-dialled connection or quic UDP socket survives Close; the garbage collector is off during the audit so that finalizers cannot hide a connection nobody closed); Close returns and is idempotent; distinct = distinct upstream kinds", kinds)
 	if sh, _ := report.Shard(); sh != 0 {
 		rep.Eval("idle-shard")
 		rep.Eval("idle-shard2")
@@ -184,7 +186,20 @@ func TestVerifC18Sockets(t *testing.T) {
 	time.Sleep(200 * time.Millisecond)
 	insecure := &tls.Config{InsecureSkipVerify: true}
 	query := refdns.Query(0x1818, refdns.N("close", "example", "test"), 1, 1).Encode(false)
-	for _, kind := range kinds {
+	type variant struct{ kind, peer string }
+	var variants []variant
+	for _, k := range kinds {
+		variants = append(variants, variant{k, "healthy"})
+	}
+	// a peer that cannot be authenticated / does not speak TLS: the dial fails during the handshake, after the socket was opened
+	for _, k := range []string{"tls", "tls+pipeline", "https", "quic", "h3"} {
+		variants = append(variants, variant{k, "untrusted-certificate"})
+	}
+	for _, k := range []string{"tls", "tls+pipeline", "https"} {
+		variants = append(variants, variant{k, "not-a-tls-server"})
+	}
+	for _, vr := range variants {
+		kind := vr.kind
 		var addr string
 		truncateUDP = false
 		switch kind {
@@ -210,59 +225,85 @@ func TestVerifC18Sockets(t *testing.T) {
 			}
 			addr = "quic://" + doqL.Addr().String()
 		}
-		rep.Eval(kind)
-		// let previous iterations' server-side sockets go away, then take the baseline
-		var base map[string]bool
-		for i := 0; i < 20; i++ {
-			base = c18Sockets()
-			time.Sleep(100 * time.Millisecond)
-			if len(c18Sockets()) == len(base) {
-				break
+		tlsCfg := insecure
+		switch vr.peer {
+		case "untrusted-certificate":
+			tlsCfg = &tls.Config{RootCAs: x509.NewCertPool(), ServerName: "localhost"} // trusts nobody
+		case "not-a-tls-server":
+			switch kind {
+			case "https":
+				addr = fmt.Sprintf("https://127.0.0.1:%d/dns-query", port)
+			default:
+				addr = fmt.Sprintf("%s://127.0.0.1:%d", kind, port)
 			}
 		}
-		u, err := NewUpstream(addr, Opt{TLSConfig: insecure})
-		if err != nil {
-			rep.Violate("C18:sockets:new-upstream:"+kind, err.Error(), nil)
-			continue
+		label := kind
+		if vr.peer != "healthy" {
+			label = kind + ":" + vr.peer
 		}
-		ctx, cancel := context.WithTimeout(context.Background(), 5*time.Second)
-		m, xerr := u.ExchangeContext(ctx, query)
-		cancel()
-		if m == nil {
-			rep.Note(fmt.Sprintf("%s: exchange against the local server failed (%v); socket audit still performed", kind, xerr))
-		}
-		done := make(chan any, 1)
-		go func() {
-			defer func() { done <- recover() }()
-			u.Close()
-			u.Close()
-		}()
-		select {
-		case p := <-done:
-			if p != nil {
-				rep.Violate("C18:sockets:close-panic:"+kind, fmt.Sprint(p), nil)
-			}
-		case <-time.After(20 * time.Second):
-			rep.Violate("C18:sockets:close-blocks:"+kind, "Close did not return within 20 s", nil)
-			continue
-		}
-		var extra []string
-		for i := 0; i < 80; i++ {
-			extra = extra[:0]
-			for s := range c18Sockets() {
-				if !base[s] {
-					extra = append(extra, c18Describe(s))
+		rep.Eval(label)
+		// an unreferenced net.Conn is closed by its finalizer at the next garbage collection: keep the collector out of the
+		// audit window, a connection nobody closes must be seen as what it is
+		gcOld := debug.SetGCPercent(-1)
+		func() {
+			defer debug.SetGCPercent(gcOld)
+			kind := label
+			// let previous iterations' server-side sockets go away, then take the baseline
+			var base map[string]bool
+			for i := 0; i < 20; i++ {
+				base = c18Sockets()
+				time.Sleep(100 * time.Millisecond)
+				if len(c18Sockets()) == len(base) {
+					break
 				}
 			}
-			if len(extra) == 0 {
-				break
+			u, err := NewUpstream(addr, Opt{TLSConfig: tlsCfg})
+			if err != nil {
+				rep.Violate("C18:sockets:new-upstream:"+kind, err.Error(), nil)
+				return
 			}
-			time.Sleep(100 * time.Millisecond)
-		}
-		if len(extra) > 0 {
-			sort.Strings(extra)
-			rep.Violate("C18:sockets:left-open:"+kind, fmt.Sprintf("%d socket(s) of the %s upstream are still open 8 s after Close: %v", len(extra), kind, extra), nil)
-		}
+			ctx, cancel := context.WithTimeout(context.Background(), 5*time.Second)
+			m, xerr := u.ExchangeContext(ctx, query)
+			cancel()
+			if m == nil && vr.peer == "healthy" {
+				rep.Note(fmt.Sprintf("%s: exchange against the local server failed (%v); socket audit still performed", kind, xerr))
+			}
+			if m != nil && vr.peer != "healthy" {
+				rep.Violate("C18:sockets:exchange-succeeded-with-bad-peer:"+kind, "the exchange succeeded although the peer cannot be authenticated", nil)
+			}
+			done := make(chan any, 1)
+			go func() {
+				defer func() { done <- recover() }()
+				u.Close()
+				u.Close()
+			}()
+			select {
+			case p := <-done:
+				if p != nil {
+					rep.Violate("C18:sockets:close-panic:"+kind, fmt.Sprint(p), nil)
+				}
+			case <-time.After(20 * time.Second):
+				rep.Violate("C18:sockets:close-blocks:"+kind, "Close did not return within 20 s", nil)
+				return
+			}
+			var extra []string
+			for i := 0; i < 80; i++ {
+				extra = extra[:0]
+				for s := range c18Sockets() {
+					if !base[s] {
+						extra = append(extra, c18Describe(s))
+					}
+				}
+				if len(extra) == 0 {
+					break
+				}
+				time.Sleep(100 * time.Millisecond)
+			}
+			if len(extra) > 0 {
+				sort.Strings(extra)
+				rep.Violate("C18:sockets:left-open:"+kind, fmt.Sprintf("%d socket(s) of the %s upstream are still open 8 s after Close: %v", len(extra), kind, extra), nil)
+			}
+		}()
 	}
 	rep.Sample(map[string]any{"kind": "https", "expect": "after Close no keep-alive connection to the DoH server remains"})
 }
